@@ -3,6 +3,7 @@ use std::{
     cell::RefCell,
     cell::RefMut,
     cmp::Ordering,
+    convert::TryFrom,
     fmt::{self, Debug, Display, Formatter},
     ops::Deref,
     rc::Rc,
@@ -257,14 +258,7 @@ impl<R: RealNumberInternalTrait> Number<R> {
         match self {
             Number::Integer(num) => Number::Integer(num),
             Number::Real(num) => Number::Real(num.floor()),
-            Number::Rational(a, b) => Number::Integer({
-                let quot = a / b;
-                if quot >= 0 || quot * b == a {
-                    quot
-                } else {
-                    quot - 1
-                }
-            }),
+            Number::Rational(a, b) => Self::integer_from_i64(Self::floor_div(a, b)),
         }
     }
 
@@ -272,14 +266,21 @@ impl<R: RealNumberInternalTrait> Number<R> {
         match self {
             Number::Integer(num) => Number::Integer(num),
             Number::Real(num) => Number::Real(num.ceil()),
-            Number::Rational(a, b) => Number::Integer({
-                let quot = a / b;
-                if quot <= 0 || quot * b == a {
-                    quot
-                } else {
-                    quot + 1
-                }
-            }),
+            Number::Rational(a, b) => Self::integer_from_i64(-Self::floor_div(-(a as i64), b as i64)),
+        }
+    }
+
+    // greatest integer not above a / b, whatever the signs of a and b
+    fn floor_div(a: impl Into<i64>, b: impl Into<i64>) -> i64 {
+        let (a, b) = (a.into(), b.into());
+        let (a, b) = if b < 0 { (-a, -b) } else { (a, b) };
+        a.div_euclid(b)
+    }
+
+    fn integer_from_i64(num: i64) -> Self {
+        match i32::try_from(num) {
+            Ok(num) => Number::Integer(num),
+            Err(_) => Number::Real(R::from(num).unwrap()),
         }
     }
 
